@@ -36,6 +36,12 @@ def monitor(c, o):
         d = kv(o); evs = d["ev"].split(",")
         if any(e != d["key"] for e in evs):
             return ("routing", f"partition key routes to partition/bucket {d['key']} but its events route to {d['ev']} (np={t[2]}, nb={t[3]})")
+    elif k == "route":
+        # every component (Database, cluster, server config, data on disk) places partition p in bucket p mod nb
+        d = kv(o); nb = int(t[3])
+        if nb > 0 and "pbucket" in d and "part" in d and d["part"].isdigit() and d["pbucket"].isdigit():
+            if int(d["pbucket"]) != int(d["part"]) % nb:
+                return ("routing-bucket", f"partition {d['part']} is routed to bucket {d['pbucket']} with {nb} buckets, but the bucket of a partition is {int(d['part']) % nb} (partition mod buckets): events, streams and partitions of one key no longer meet in one bucket")
     elif k == "txnew":
         key = int(t[1]); evs = [] if t[2] == "-" else [int(x) for x in t[2].split(",")]
         want = "empty" if not evs else ("ok flag=" + str(len(evs) == 1).lower() if all(H(e) == H(key) for e in evs) else "invalid")
